@@ -417,7 +417,10 @@ class TaskShuffle(SimpleShuffle):
             if stage == (stages - 1) and npartitions == npartitions_input:
                 name = self._name
                 parts_out = self._partitions
-                _filter = parts_out if self._filtered else None
+                # the groups of this stage are keyed by stage digit, not partition id
+                _filter = (
+                    {inputs[p][stage] for p in parts_out} if self._filtered else None
+                )
             else:
                 name = f"stage-{stage}-{self._name}"
                 _filter = None
